@@ -24,8 +24,8 @@
      filter_dataset_to_unique_treatments         filter_unique_view / filter_unique_screen
    Abstracted: numpy storage (a view's attribute arrays are recomputed on each access from the parent, as in
    the code); in-place mutation is not expressible here - every function returns a new value, the harness
-   checks on the real objects that the arguments are left untouched.  single_treatment_effects, Plate.merge,
-   Plate.plate_id/plate_name are not modelled.  `a | b` on vectors of different length (numpy raises) cannot
+   checks on the real objects that the arguments are left untouched.  Plate.merge, Plate.plate_id/plate_name are
+   not modelled; single_treatment_effects only as the row selection of an opaque parent value (end of this file).  `a | b` on vectors of different length (numpy raises) cannot
    arise from views of one parent; [bor_vec] truncates and the constructor's length check then refuses.
 
    Also here: op trees over views ([vexpr]), their evaluator [eval] through the functions above, and the
@@ -286,3 +286,53 @@ Fixpoint ref (ps : list screen) (e : vexpr) : list nat :=
   | Concat es => filter (fun i => existsb (mem_nat i) (map (ref ps) es)) all
   | Unique e => keep_first (row_key p) [] (ref ps e)
   end.
+
+(* ======================= vocabulary of the source-translation link =======================
+   (harness/src_functions.py C14_*: the types and primitive meanings the translations in Generated/SrcViews.v use)
+   A Screen OBJECT is its identity (tag) and its contents; `a is b` on Screen objects compares identities.
+   A ScreenSubset / Plate OBJECT is a [view]: its two instance attributes `screen` and `selection_vector`
+   (the class, ScreenSubset or Plate, is not modelled: Plate defines no __init__ and no view-producing method). *)
+Definition pyscreen : Type := Z * screen.
+Definition same_object (a b : pyscreen) : bool := fst a =? fst b.
+Definition view_screen (v : view) : pyscreen := (v_tag v, v_parent v).                       (* v.screen *)
+Definition set_view_screen (v : view) (s : pyscreen) : view :=                               (* v.screen = s *)
+  {| v_tag := fst s; v_parent := snd s; v_sel := v_sel v |}.
+Definition set_view_sel (v : view) (sel : list bool) : view :=                               (* v.selection_vector = sel *)
+  {| v_tag := v_tag v; v_parent := v_parent v; v_sel := sel |}.
+(* object.__new__(ScreenSubset): the instance before __init__ has set its attributes *)
+Definition blank_view : view := {| v_tag := 0; v_parent := empty_screen; v_sel := [] |}.
+(* a numpy array of unknown dtype handed in as a selection: (its dtype is bool, the truth values of its elements);
+   an array known to be of dtype bool is a plain [list bool] *)
+Definition anyarray : Type := bool * list bool.
+(* a bool array the function itself has created (`.copy()`): the only arrays an in-place store is declared for *)
+Definition own_bools : Type := list bool.
+(* a 2-d per-row array (treatment_names, treatment_doses): (number of columns, rows) *)
+Definition arr2 (A : Type) : Type := nat * list (list A).
+Definition select2 {A} (sel : list bool) (a : arr2 A) : arr2 A := (fst a, select sel (snd a)).   (* a[sel] keeps the columns *)
+Definition screen_treatment_names (p : screen) : arr2 name := (s_arity p, map (fun r => map fst (r_treats r)) (s_rows p)).
+Definition screen_treatment_doses (p : screen) : arr2 Z := (s_arity p, map (fun r => map snd (r_treats r)) (s_rows p)).
+
+(* the row list Model/Screen.mk_screen takes, from the per-row arrays Screen(...) takes *)
+Fixpoint rows_of_arrays (tn : list (list name)) (td : list (list Z)) (obs : list Z) (mask : list bool)
+         (sn pn : list name) : list row :=
+  match tn, td, obs, mask, sn, pn with
+  | a :: tn', d :: td', o :: obs', m :: mask', s :: sn', p :: pn' =>
+      {| r_sample := s; r_plate := p; r_treats := combine a d; r_obs := o; r_mask := m |}
+      :: rows_of_arrays tn' td' obs' mask' sn' pn'
+  | _, _, _, _, _, _ => []
+  end.
+(* Screen(treatment_names=, treatment_doses=, observations=, observation_mask=, sample_names=, plate_names=,
+          control_treatment_name=): the constructor with exactly these arguments - observations and mask given,
+   no mappings, arity = treatment_names.shape[1] *)
+Definition screen_of_arrays (tn : arr2 name) (td : arr2 Z) (obs : list Z) (mask : list bool) (sn pn : list name)
+           (ctrl : name) : result screen :=
+  mk_screen (rows_of_arrays (snd tn) (snd td) obs mask sn pn) (fst tn) ctrl None None true true.
+
+(* subset_observed / subset_unobserved return Optional[ScreenSubset] and may raise: the translation's
+   `result (option view)` from the model's `option (result view)` *)
+Definition opt_result {A} (o : option (result A)) : result (option A) :=
+  match o with None => Ok None | Some r => dor a <- r; Ok (Some a) end.
+
+(* ScreenSubset.single_treatment_effects, given the value of the parent's (computed) property: None propagates *)
+Definition view_single_effects {E} (v : view) (parent_value : option (list E)) : option (list E) :=
+  option_map (select (v_sel v)) parent_value.
